@@ -8,7 +8,7 @@ RULE = ("MC: toy list codec (3 satellites, 3 signals, per-satellite count field 
         "seeded lists inside the precondition (1..63 satellites, 1..12 / 1..4 distinct recognised signals per satellite, biases on the 14-bit grid incl. "
         "both ends, entries of one satellite scattered through the list), outside it (repeated signals > 31 per satellite, unrecognised signal), 1230 with "
         "every non-empty subset of its four signals in every order; TLC: MustErr => error, ok => wire bits = BiasList!Enc(entries) + zero padding and "
-        "decode = the same entries (bias bit patterns included) regrouped; decoded lists never exceed 390 entries (hostile frames: C02); "
+        "decode = the same entries (bias bit patterns included) regrouped; decoded lists never exceed 390 entries (hostile frames: C02); every satellite id 0..66 alone; both build profiles (a panic is neither an error nor a frame); "
         "non-trivial = list inside the precondition; distinct = distinct lists")
 
 
@@ -25,6 +25,11 @@ def run(chk):
     r = tv("Trace_Bias", "Trace_Bias.cfg", t, shards=12, tag="C16")
     chk.add_tv("bias", r)
     report_rejects(chk, r, sig, lambda ev, d: "bias list of message %s: entries lost / wire form differs from BiasList!Enc / missing error" % ev.get("number"))
+    t2 = record("bias", chk.path("bias-relchk.ndjson"), profile="relchk", seed=chk.seed + 7, n=150 if q else 3000, timeout=3000)
+    r2 = tv("Trace_Bias", "Trace_Bias.cfg", t2, shards=12, tag="C16-relchk")
+    chk.add_tv("bias[relchk]", r2)
+    report_rejects(chk, r2, lambda ev, d: "[overflow-checks] " + sig(ev, d),
+                   lambda ev, d: "[overflow-checks] bias list of message %s: entries lost / wire form differs from BiasList!Enc / missing error / panic (%s)" % (ev.get("number"), str(ev.get("out"))[:120]))
     inpre = sum(1 for ln, o in r["lines"] if o["class"] in ("random-pre", "sat-count", "subset-order", "sat-id"))
     chk.cov["distinct_nontrivial"] = len(set(ln for ln, o in r["lines"] if o["class"] in ("random-pre", "sat-count", "subset-order", "sat-id")))
     if inpre < 300:
